@@ -3,6 +3,7 @@ package main
 // Calls: conversions, built-ins, contract-based (modular) calls, inlining.
 
 import (
+	"strconv"
 	"fmt"
 	"go/ast"
 	"go/types"
@@ -261,7 +262,7 @@ func alignNames(fi *FuncInfo, con *Contract) []int {
 			continue
 		}
 		for c, v := range fi.DeclOrder {
-			if !usedC[c] && fi.DeclTag[v] == t {
+			if !usedC[c] && recordedTag(fi, con, fi.DeclTag[v]) == t {
 				out[r] = c
 				usedR[r], usedC[c] = true, true
 				break
@@ -359,6 +360,22 @@ func alignNames(fi *FuncInfo, con *Contract) []int {
 	return out
 }
 
+// recordedTag: a variable's loop role with the loop ordinal translated to the one the loop had when the contract was written
+func recordedTag(fi *FuncInfo, con *Contract, tag string) string {
+	if tag == "" {
+		return ""
+	}
+	k := 0
+	for k < len(tag) && tag[k] >= '0' && tag[k] <= '9' {
+		k++
+	}
+	ord, err := strconv.Atoi(tag[:k])
+	if err != nil {
+		return tag
+	}
+	return strconv.Itoa(loopRecorded(fi, con, ord)) + tag[k:]
+}
+
 // recordedSig: the contract's own names for receiver+parameters (or named results), when every one of them is
 // aligned position by position with the current declaration.
 func recordedSig(fi *FuncInfo, con *Contract, results bool) []string {
@@ -442,6 +459,10 @@ func resultNames(fi *FuncInfo, con *Contract, fn *types.Func) []string {
 	}
 	if rec := recordedSig(fi, con, true); rec != nil && len(rec) == sig.Results().Len() {
 		return rec
+	}
+	if fi != nil && con != nil && fi.NSigOut == 0 && con.NamesOut > 0 && con.NamesOut == sig.Results().Len() && con.NamesIn+con.NamesOut <= len(con.Names) {
+		// the results were named when the contract was written and are anonymous now: the contract keeps its names
+		return append([]string(nil), con.Names[con.NamesIn:con.NamesIn+con.NamesOut]...)
 	}
 	for i := 0; i < sig.Results().Len(); i++ {
 		n := sig.Results().At(i).Name()
